@@ -296,11 +296,37 @@ inductive Method where
   | get | post
   deriving DecidableEq, Repr
 
+/-- What `prepareTLS` reads of the certificate (`x509.ParseCertificate` of
+`TLSConf.Cert`). -/
+structure Cert where
+  /-- DNS subject alternative names -/
+  dnsNames : List Bytes
+  /-- `Subject.CommonName` -/
+  cn : Bytes
+  /-- the certificate has IP SANs (`s.hasIPAddrs`; DDR only) -/
+  hasIP : Bool
+
+/-- What `prepareTLS` leaves behind for the request path. -/
+structure TLSPrep where
+  /-- `s.conf.TLSConf.StrictSNICheck` as `clientIDFromDNSContext` and
+  `onGetCertificate` will read it -/
+  strict : Bool
+  /-- `s.dnsNames` (sorted in the code; only membership is used) -/
+  dnsNames : List Bytes
+
+/-- dnsforward `(*Server).prepareTLS`, the part about strict checking: with
+strict checking the names to match a handshake against are the DNS SANs, or
+the common name alone (even an empty one) when there is no DNS SAN.  The
+configured flag is read, never written. -/
+def prepareTLS (strict : Bool) (c : Cert) : TLSPrep :=
+  { strict := strict
+    dnsNames := if strict then (if c.dnsNames ≠ [] then c.dnsNames else [c.cn]) else [] }
+
 structure Conf where
   srvName : Bytes
+  /-- `TLSConf.StrictSNICheck` as configured -/
   strict : Bool
-  /-- `s.dnsNames`: the sorted DNS names of the certificate -/
-  certNames : List Bytes
+  cert : Cert
   /-- `TLSAllowUnencryptedDoH` -/
   plainDoH : Bool
   /-- GODEBUG `urlstrictcolons` of the server binary (see `UrlEnv`) -/
@@ -349,15 +375,17 @@ replaces the Host header (HTTP/1.x); for h2 it is `:authority`. -/
 def effHost (r : Req) (urlHost : Bytes) : Bytes :=
   if r.tr == .h2 then r.host else if urlHost ≠ [] then urlHost else r.host
 
+def Conf.prep (cf : Conf) : TLSPrep := prepareTLS cf.strict cf.cert
+
 def mkCtxHTTP (cf : Conf) (r : Req) (urlHost path : Bytes) : Ctx :=
   { proto := .https, path := some path,
     httpTLS := if r.tr == .hp then none else some r.sni,
     hostHdr := effHost r urlHost, hostSplit := r.hostSplit,
-    connSNI := none, hostSrvName := cf.srvName, strict := cf.strict }
+    connSNI := none, hostSrvName := cf.srvName, strict := cf.prep.strict }
 
 def mkCtxConn (cf : Conf) (p : Proto) (sni : Option Bytes) : Ctx :=
   { proto := p, path := none, httpTLS := none, hostHdr := [], hostSplit := none,
-    connSNI := sni, hostSrvName := cf.srvName, strict := cf.strict }
+    connSNI := sni, hostSrvName := cf.srvName, strict := cf.prep.strict }
 
 def isWildcard (dn : Bytes) : Bool := dn.take 2 == [star, dot]
 
@@ -404,7 +432,7 @@ def frontHTTP (cf : Conf) (r : Req) : Except Out Ctx :=
 
 /-- …and to a DoT / DoQ connection. -/
 def frontTLS (cf : Conf) (r : Req) (p : Proto) : Except Out Ctx :=
-  if cf.strict && !anyNameMatches cf.certNames r.sni r.sniValidHost then .error .hs
+  if cf.prep.strict && !anyNameMatches cf.prep.dnsNames r.sni r.sniValidHost then .error .hs
   else .ok (mkCtxConn cf p (some r.sni))
 
 def front (cf : Conf) (r : Req) : Except Out Ctx :=
